@@ -1081,7 +1081,30 @@ fn cases(entry: Entry) -> BoxedStrategy<Case> {
 				if entry == Entry::Factory {
 					prop_oneof![6 => text_case(vpl_text(), "vpl"), 4 => with_csv, 4 => with_tile, 1 => random, 1 => deep].boxed()
 				} else {
-					prop_oneof![6 => text_case(vpl_text(), "vpl"), 4 => with_csv, 2 => including, 1 => random, 1 => deep].boxed()
+					// a pipeline over a (possibly damaged) tar archive: the stages derive bounds and zoom
+					// range from the coverage the archive's reader reports
+					let edge_tar = (0u8..32, 0u8..6, 0u8..6, any::<bool>()).prop_map(move |(z, a, b, second)| {
+						let edge = |k: u8| -> u64 {
+							match k {
+								0 => u32::MAX as u64,
+								1 => u32::MAX as u64 - 1,
+								2 => 1u64 << z,
+								3 => (1u64 << z) - 1,
+								4 => (1u64 << z) + 7,
+								_ => 0,
+							}
+						};
+						let mut m = vec![(format!("{z}/{}/{}.png", edge(a), edge(b)), b"tile".to_vec())];
+						if second {
+							m.push((format!("{z}/0/0.png"), b"tile 2".to_vec()));
+						}
+						Case { entry: Entry::TarFile, origin: "tar-edge-names".to_string(), data: vt::server::tar_archive(&m, false), files: vec![] }
+					});
+					let over_tar = (prop_oneof![3 => cases(Entry::TarFile), 2 => edge_tar], 0usize..3).prop_map(move |(c, stage)| {
+						let text = format!("from_container filename=\"t.tar\" | {}", ["filter_zoom min=0", "filter_bbox bbox=[-180,-85,180,85]", "filter_zoom min=0 max=31 "][stage]);
+						Case { entry, origin: format!("vpl-over-tar:{}", c.origin), data: text.into_bytes(), files: vec![("t.tar".to_string(), c.data)] }
+					});
+					prop_oneof![6 => text_case(vpl_text(), "vpl"), 4 => with_csv, 2 => including, 2 => over_tar, 1 => random, 1 => deep].boxed()
 				}
 			} else {
 				prop_oneof![8 => text_case(vpl_text(), "vpl"), 1 => random, 1 => deep].boxed()
@@ -1387,7 +1410,7 @@ fn main() {
 	let mut check = Check::from_args(
 		"C19",
 		"exploration",
-		"per entry point (JSON str/blob, TileJSON str/blob, CSV, GeoValue, VPL, pipeline factory incl. CSV side file, .vpl file, vector tile, versatiles/PMTiles from memory and from file, MBTiles, tar, directory): valid encodings produced by the harness generators and independent encoders, mutated by bit flips, boundary-value bytes / big- and little-endian integers / varints, truncation, insertion, deletion, duplication, splices of a second valid input, multi-byte and broken UTF-8 insertion; for versatiles and PMTiles additionally mutations of the raw block index / tile index / directories / header / metadata BEFORE compression (so that the corruption passes the compression layer); nesting depth up to 256; vector tiles that decode but are odd in content (odd number of tag words, tag ids beyond the tables, geometry deltas at the ends of the 64-bit range), as input of the vector tile entry and as the tile the in-memory source of the pipeline-factory entry delivers to vectortiles_update_properties / from_vectortiles_merged before the tile is looked up; TileJSON blobs through both conversions; pipeline text through the file path and through open_reader (data reader), with chains (up to 19 files) and cycles of pipeline files that read each other; directory entries with columns / rows at the ends of the u32 range and just beyond the level; plus uniformly random bytes. Each case runs in a worker process on a 2 MiB stack under a tracking allocator. Violations: panic, process death (abort, stack overflow, signal), peak heap growth > 256 MiB for inputs <= 256 KiB. A timeout (3 s quick / 10 s thorough) is counted, not reported. non-trivial = derived from a valid encoding and accepted, or rejected with another message than the entry point's first structural check",
+		"per entry point (JSON str/blob, TileJSON str/blob, CSV, GeoValue, VPL, pipeline factory incl. CSV side file, .vpl file, vector tile, versatiles/PMTiles from memory and from file, MBTiles, tar, directory): valid encodings produced by the harness generators and independent encoders, mutated by bit flips, boundary-value bytes / big- and little-endian integers / varints, truncation, insertion, deletion, duplication, splices of a second valid input, multi-byte and broken UTF-8 insertion; for versatiles and PMTiles additionally mutations of the raw block index / tile index / directories / header / metadata BEFORE compression (so that the corruption passes the compression layer); nesting depth up to 256; vector tiles that decode but are odd in content (odd number of tag words, tag ids beyond the tables, geometry deltas at the ends of the 64-bit range), as input of the vector tile entry and as the tile the in-memory source of the pipeline-factory entry delivers to vectortiles_update_properties / from_vectortiles_merged before the tile is looked up; TileJSON blobs through both conversions; pipeline text through the file path and through open_reader (data reader), with chains (up to 19 files) and cycles of pipeline files that read each other; pipelines (filter_zoom / filter_bbox) over generated and damaged tar archives; directory entries with columns / rows at the ends of the u32 range and just beyond the level; plus uniformly random bytes. Each case runs in a worker process on a 2 MiB stack under a tracking allocator. Violations: panic, process death (abort, stack overflow, signal), peak heap growth > 256 MiB for inputs <= 256 KiB. A timeout (3 s quick / 10 s thorough) is counted, not reported. non-trivial = derived from a valid encoding and accepted, or rejected with another message than the entry point's first structural check",
 	);
 	check.assume("bulk tile streams over corrupted containers are outside the statement; liveness is not asserted (timeouts are counted)");
 	vt::engine::watchdog(7200);
